@@ -38,6 +38,7 @@ typedef struct arec {
 	int             prov_final;      // result the provider passed to finish
 	int             prov_have_final;
 	int             cancel_delay_us;
+	_Atomic uint64_t t_expire_pick; // last time the expire loop picked this aio (hook)
 	// outcome accounting
 	_Atomic int     results[8];
 	struct casectx *cx;
@@ -60,6 +61,23 @@ typedef struct casectx {
 } casectx;
 
 static pthread_mutex_t prov_mtx = PTHREAD_MUTEX_INITIALIZER;
+static casectx *_Atomic cur_cx;
+
+// hook: remember when the expire loop picked one of our aios (its deadline had
+// passed at that moment).  Used only to name the window an early timeout came
+// through, not to decide whether it is a violation.
+static void
+ev_hook(int ev, const void *obj, uintptr_t a, uintptr_t b)
+{
+	(void) a;
+	(void) b;
+	if (ev != NNI_VE_AIO_EXPIRE) return;
+	casectx *cx = atomic_load(&cur_cx);
+	if (cx == NULL) return;
+	for (int i = 0; i < cx->nrec; i++) {
+		if ((const void *) cx->rec[i].aio == obj) atomic_store(&cx->rec[i].t_expire_pick, vf_now_ns());
+	}
+}
 static long            case_no;
 
 static const char *
@@ -155,7 +173,12 @@ cb(void *arg)
 			snprintf(key, sizeof(key), "C02/timeout-without-timeout/%s", kind_names[r->kind]);
 			vf_violation(key, "%s: NNG_ETIMEDOUT but no timeout was configured (elapsed %.2f ms)", kind_names[r->kind], el_ms);
 		} else if (el_ms < (double) tmo - 1.0) {
-			snprintf(key, sizeof(key), "C02/timeout-early/%s", kind_names[r->kind]);
+			// which window?  If the expire loop picked this aio before the
+			// current submission began, the timeout belongs to the previous
+			// operation of this aio and its cancel call landed on this one.
+			uint64_t pick = atomic_load(&r->t_expire_pick);
+			bool     stale = pick != 0 && pick <= atomic_load(&r->t_submit);
+			snprintf(key, sizeof(key), "C02/timeout-early/%s%s", stale ? "stale-expiry-cancel/" : "", kind_names[r->kind]);
 			vf_violation(key, "%s: NNG_ETIMEDOUT after %.2f ms, configured %d ms", kind_names[r->kind], el_ms, tmo);
 		}
 		break;
@@ -196,6 +219,13 @@ cb(void *arg)
 		if (have && fin != rv) {
 			vf_violation("C02/result-changed", "provider finished with %d (%s) but callback saw %d (%s)", fin, resname(fin), rv, resname(rv));
 		}
+	}
+	if (r->kind == K_ACCEPT && rv != 0 && nng_aio_get_output(r->aio, 0) != NULL) {
+		vf_violation("C02/error-with-effect/stream-accept", "accept reported %s but a connection was accepted and attached to the aio", resname(rv));
+		nng_stream *st = nng_aio_get_output(r->aio, 0);
+		nng_stream_close(st);
+		int k = atomic_fetch_add(&r->cx->naccepted, 1);
+		if (k < 64) r->cx->accepted[k] = st;
 	}
 	if (r->kind == K_ACCEPT && rv == 0) {
 		nng_stream *st = nng_aio_get_output(r->aio, 0);
@@ -543,6 +573,7 @@ run_case(long idx, vf_rng *r)
 		}
 	}
 	pthread_t ta, tc;
+	atomic_store(&cur_cx, cx);
 	pthread_create(&tc, NULL, completer_thread, &p);
 	for (int i = 0; i < cx->nrec; i++) submit(&cx->rec[i], false);
 	pthread_create(&ta, NULL, actor_thread, &p);
@@ -600,6 +631,7 @@ run_case(long idx, vf_rng *r)
 		}
 		vf_stat("conservation_checked", 1);
 	}
+	atomic_store(&cur_cx, NULL);
 	for (int i = 0; i < cx->nrec; i++) {
 		arec *a = &cx->rec[i];
 		nng_aio_free(a->aio);
@@ -657,6 +689,7 @@ int
 main(int argc, char **argv)
 {
 	vf_init(argc, argv);
+	vf_ev_hook(ev_hook);
 	vf_rng r;
 	static const int shapes[][3] = { { 2, 1, 1 }, { 16, 8, 4 }, { 4, 2, 2 }, { 2, 1, 1 } };
 	int inited = 0;
